@@ -405,6 +405,26 @@ class World:
                                                 attr]))
         return lines
 
+    def write_gff3(self, path, id_map=None, exon_ids=None, transcript_type="mRNA"):
+        """The annotation as GFF3: gene / mRNA / exon records linked by ID and Parent (transcripts are typed `transcript_type`)."""
+        id_map = id_map or {}
+        with open(path, "w") as f:
+            f.write("##gff-version 3\n")
+            for chrom in self.chrom_order:
+                genes = sorted([g for g in self.genes if g.chrom == chrom and g.transcripts], key=lambda g: (g.start, g.id))
+                for g in genes:
+                    gid = id_map.get(g.id, g.id)
+                    f.write("\t".join([chrom, "vsynth", "gene", str(g.start), str(g.end), ".", g.strand, ".", "ID=%s;gene_id=%s;Name=%s" % (gid, gid, gid)]) + "\n")
+                    for t in g.transcripts:
+                        tid = id_map.get(t.id, t.id)
+                        f.write("\t".join([chrom, "vsynth", transcript_type, str(t.start), str(t.end), ".", t.strand, ".",
+                                           "ID=%s;Parent=%s;gene_id=%s;transcript_id=%s" % (tid, gid, gid, tid)]) + "\n")
+                        for k, e in enumerate(t.exons):
+                            attr = "ID=%s.e%d;Parent=%s;gene_id=%s;transcript_id=%s" % (tid, k + 1, tid, gid, tid)
+                            if exon_ids is not None and (chrom, e[0], e[1], t.strand) in exon_ids:
+                                attr += ";exon_id=%s" % exon_ids[(chrom, e[0], e[1], t.strand)]
+                            f.write("\t".join([chrom, "vsynth", "exon", str(e[0]), str(e[1]), ".", t.strand, ".", attr]) + "\n")
+
     def write_gtf(self, path, gz=False, **kw):
         op = gzip.open if gz else open
         with op(path, "wt") as f:
